@@ -1159,6 +1159,9 @@ package godi
 //@   unchecked nil-iface-call#3: reflect.PointerTo never returns nil
 //@   requires tracked_nonnil: forall i int :: 0 <= i && i < len(r.allDescriptors) ==> r.allDescriptors[i] != nil
 //@   requires maps: regmaps(r) && r.analyzer != nil
+// a registration that is accepted without registering any alias was not asked for aliases (As is never silently ignored)
+//@   at before assign output.outputs#1 : assert[C04] aliases_are_not_silently_dropped: len(options.As) == 0
+//@   at before assign output.outputs#2 : assert[C04] aliases_are_not_silently_dropped_multi_return: len(options.As) == 0
 // the instance that will be stored under an interface alias is an instance of the registered type: that type itself implements the alias
 //@   at before call r.registerDescriptor#3 : assert[C04,C15] alias_is_implemented_by_the_registered_type by(maps): ext("(reflect.Type).Implements", "bool", descriptor.Type, interfaceType)
 //@   ensures[C15] nil_constructor_rejected: service == nil ==> typeis(result, "*ValidationError") && as(result, "*ValidationError").Cause == ErrConstructorNil && ncalls("collection.registerDescriptor") == 0
